@@ -26,6 +26,12 @@ def run_case(case, semi_layout=None):
     from opfython.models.semi_supervised import SemiSupervisedOPF
     from opfython.models.unsupervised import UnsupervisedOPF
     A = np.asarray(case["A"], dtype=float)
+    # the statement quantifies over ALL datasets: feature arrays of other dtypes included (single precision, integers)
+    dt = case.get("dtype", "float64")
+    if dt == "float32":
+        A = A.astype(np.float32)
+    elif dt == "int64":
+        A = np.rint(A * 3).astype(np.int64) + 1
     Y = np.asarray(case["Y"], dtype=int)
     I_tr, I_te = np.asarray(case["I_train"], dtype=int), np.asarray(case["I_test"], dtype=int)
     metric, ext = case["metric"], case["ext"]
@@ -119,8 +125,10 @@ def gen(rng):
     I_tr, I_te = rows[:ntr], rows[ntr:]
     if len(set(Y[i] for i in I_tr)) < 2:
         Y[I_tr[0]], Y[I_tr[1]] = 0, 1
-    return {"A": A, "Y": Y, "I_train": I_tr, "I_test": I_te, "metric": metric, "ext": rng.choice(["txt", "csv"]),
+    case = {"A": A, "Y": Y, "I_train": I_tr, "I_test": I_te, "metric": metric, "ext": rng.choice(["txt", "csv"]),
             "model": rng.choice(["file", "sup", "sup", "unsup", "semi"]), "k": rng.randint(1, 3)}
+    case["dtype"] = rng.choice(["float64", "float64", "float32", "int64"])
+    return case
 
 
 def explore(tier="quick", prop="C10"):
@@ -160,7 +168,8 @@ def explore(tier="quick", prop="C10"):
                 break
     stats["rule"] = ("datasets of 8..14 samples written by the real pre_compute_distance to .txt/.csv and read back by the "
                      "models; forests, clusterings, predictions and get_distances compared with the on-the-fly runs for "
-                     "symmetric and asymmetric metrics with shuffled train/test index sets; every case non-trivial")
+                     "symmetric and asymmetric metrics with shuffled train/test index sets; feature arrays of dtype float64, "
+                     "float32 and int64; every case non-trivial")
     return stats, failure
 
 
